@@ -509,7 +509,7 @@ fn element_script(r: &mut Rng, kind: MacroKind, n: usize, truth_role: bool) -> V
 }
 
 fn gen07_body(b: &mut Builder, r: &mut Rng, kind: MacroKind, var: &str, n: usize, depth: u32, truth_role: bool) -> E {
-    match r.weighted(&[6, 2, 2, 2, 2, if depth > 0 { 3 } else { 0 }, 1]) {
+    match r.weighted(&[6, 2, 2, 2, 2, if depth > 0 { 3 } else { 0 }, 1, 3]) {
         0 => {
             // P(x): logs the visited element
             let sc = element_script(r, kind, n, truth_role);
@@ -572,7 +572,16 @@ fn gen07_body(b: &mut Builder, r: &mut Rng, kind: MacroKind, var: &str, n: usize
                 E::List(vec![inner, after])
             }
         }
-        _ => E::Lit(any_value(r)),
+        6 => E::Lit(any_value(r)),
+        _ => {
+            // a stored program that reads the loop name: evaluated "under the same bindings",
+            // so inside the body it sees the element, outside the macro the outer binding
+            let name = format!("pv{}", b.case.programs.len());
+            let sc = element_script(r, kind, n + 1, truth_role);
+            let pe = b.cb(sc, vec![E::var(var)]);
+            b.case.programs.insert(name.clone(), pe);
+            E::Prog(name)
+        }
     }
 }
 
@@ -582,7 +591,7 @@ pub fn gen07_random(seed: u64) -> EnvCase {
     let mut b = Builder::new(&mut r, if over_map { 3 } else { 1 });
     let var = if r.chance(1, 4) { "y" } else { "x" };
     // sometimes the loop name is also bound outside: it must be shadowed inside and intact after
-    let outer_bound = r.chance(1, 3);
+    let outer_bound = r.chance(2, 5);
     if outer_bound {
         b.case.bindings.insert(var.to_string(), V::s("outer-sentinel"));
     }
@@ -668,6 +677,22 @@ pub fn gen07_random(seed: u64) -> EnvCase {
             bodies.push(gen07_body(&mut b, &mut r, MacroKind::Map, var, n, 0, false));
         }
         E::mac(kind, range, var, bodies)
+    };
+    // a stored program reading the loop name is also evaluated outside the macro, before or
+    // after it, in the same execution: there the name means the outer binding
+    let pv: Vec<String> = b.case.programs.keys().filter(|k| k.starts_with("pv")).cloned().collect();
+    let main = if outer_bound && !pv.is_empty() && r.chance(3, 4) {
+        // (a program name inside a list literal is resolved when the list is built, after the
+        // other elements: no statement orders that, so the order is forced by a condition)
+        let p = E::Prog(r.pick(&pv).clone());
+        let never = || Box::new(E::Lit(V::s("never")));
+        match r.below(3) {
+            0 => E::Tern(Box::new(E::Cmp(Cmp::Eq, Box::new(p), never())), Box::new(E::Lit(V::Null)), Box::new(main)),
+            1 => E::Tern(Box::new(E::Cmp(Cmp::Eq, Box::new(main), never())), Box::new(E::Lit(V::Null)), Box::new(p)),
+            _ => E::Or(Box::new(E::Cmp(Cmp::Eq, Box::new(p), never())), Box::new(main)),
+        }
+    } else {
+        main
     };
     // sometimes use the loop name again after the macro: it must mean the outer binding
     let main = if outer_bound && r.chance(1, 2) {
